@@ -138,15 +138,8 @@ theorem parent_cases (L : LinkData g o c sets comps M ν σ) (C : List Var) (hC 
 
 theorem outcome_in_dstar (L : LinkData g o c sets comps M ν σ) (p : Var × Ctf.Val) (hp : p ∈ o) :
     p.1.name ∈ dedup' ((deriveVars comps (eventVars o)).map (·.name)) := by
-  have hf := L.cls.found
-  unfold OutcomesFound dstarVars at hf
-  have hc := L.cls.comps_ok
-  unfold condComps at hc
-  simp only [bind, Except.bind, hc, pure, Except.pure] at hf
-  rw [List.all_eq_true] at hf
-  have := (mem'_iff _ _).1 (hf p hp)
   rw [mem_dedup', List.mem_map]
-  exact ⟨p.1, this, rfl⟩
+  exact ⟨p.1, L.cls.foundRaw p hp, rfl⟩
 
 end LinkData
 
@@ -154,7 +147,7 @@ end LinkData
 theorem ctfTR_link (g : MG Name) (hg : g.WF) (o c : Event)
     (hnodes : ∀ p ∈ o ++ c, p.1.name ∈ g.nodes) (hvalued : ∀ p ∈ o ++ c, p.2.isSome = true)
     (hcls : ctfTRSoundClass g o c = true)
-    (dstar : Event) (dNames : List Name) (h2 : line2C g o c = .ok (dstar, dNames))
+    (dstar : Event) (dNames : List Name) (h2 : line2CRaw g o c = .ok (dstar, dNames))
     (M : Model) (hM : Compatible M g) (hnorm : ∀ pmf ∈ M.noise, pmf.sum = 1)
     (card : Name → Nat) (hcard : ∀ v pa lat, M.f v pa lat < card v)
     (ν : BaseValues) (σ : Y0.Val) (hσ : EventReading ν σ (o ++ c)) :
@@ -168,14 +161,9 @@ theorem ctfTR_link (g : MG Name) (hg : g.WF) (o c : Event)
   have L : LinkData g o c sets comps M ν σ := ⟨hg, cls, l1, hM, hnodes, hσ⟩
   -- the vertices of `D_*`
   have hdN : dNames = dedup' ((deriveVars comps (eventVars o)).map (·.name)) := by
-    rw [line2C_eq] at h2
-    have hD : dstarVars g o c = .ok (deriveVars comps (eventVars o)) := by
-      have hc := cls.comps_ok
-      unfold condComps at hc
-      unfold dstarVars
-      simp only [bind, Except.bind, hc, pure, Except.pure]
-    rw [hD] at h2
-    simp only [Except.bind] at h2
+    unfold line2CRaw line2COf at h2
+    rw [cls.comps_ok] at h2
+    simp only [bind, Except.bind, pure, Except.pure] at h2
     cases hce : convertEvent g (deriveEvent o (deriveVars comps (eventVars o))) with
     | error e => rw [hce] at h2; cases h2
     | ok ev =>
